@@ -1219,6 +1219,10 @@ def _m_rangeinc_new(ev, a, t, d):
     return adt("core::ops::range::RangeInclusive", "RangeInclusive", (("start", a[0]), ("end", a[1])))
 
 
+def _m_chunks(ev, a, t, d):
+    return ("iter", ("chunks", a[0], a[1]))
+
+
 def _m_iop(name):
     def f(ev, a, t, d):
         return ("iop", name, a[0], a[1] if len(a) > 1 else UNIT)
@@ -1277,6 +1281,7 @@ DEFAULT_MODELS = {
     "core::num::<impl i16>::abs": _m_i_abs,
     "std::f64::<impl f64>::powf": _m_powf,
     "core::slice::<impl [T]>::iter": _m_iter,
+    "core::slice::<impl [T]>::chunks_exact": _m_chunks,
     "core::iter::traits::iterator::Iterator::copied": _ident,
     "core::iter::traits::iterator::Iterator::cloned": _ident,
     "core::iter::traits::iterator::Iterator::map": _m_imap,
